@@ -7,7 +7,7 @@ cd "${1:-/repo}" || exit 2
 # a port still lingering from a run a moment ago: up to three attempts.
 for attempt in 1 2 3; do
 out=$(mktemp)
-go test -json -vet=off -count=1 -timeout 25m ./... > "$out" 2>/dev/null
+go test -json -vet=off -count=1 -timeout 4m ./... > "$out" 2>/dev/null
 python3 - "$out" <<'PY'
 import json,sys
 passed=set()
